@@ -245,6 +245,55 @@ pub fn skeletons(bounds: &Bounds) -> Vec<Tree> {
     out
 }
 
+/// The tree with infoset labels and chance weights erased: what the frontier split of the
+/// multi-threaded solvers can depend on besides the strategies
+pub fn shape_signature(tree: &Tree) -> String {
+    match tree {
+        Tree::T(_) => "t".to_string(),
+        Tree::C(_, outs) => format!("C[{}]", outs.iter().map(|(_, n)| shape_signature(n)).collect::<Vec<_>>().join(" ")),
+        Tree::P(num, _, acts) => format!("P{}[{}]", num + 1, acts.iter().map(|(_, n)| shape_signature(n)).collect::<Vec<_>>().join(" ")),
+    }
+}
+
+/// number of distinct infoset labels (players and chance) of a tree
+pub fn num_labels(tree: &Tree) -> usize {
+    let mut set = std::collections::BTreeSet::new();
+    tree.walk(&mut |n| match n {
+        Tree::C(Some(info), _) => {
+            set.insert(format!("c:{}", info));
+        }
+        Tree::P(num, info, _) => {
+            set.insert(format!("{}:{}", num, info));
+        }
+        _ => {}
+    });
+    set.len()
+}
+
+/// For every shape signature of `skels` the labelling with the most and the one with the fewest
+/// infosets (first weights variant met): the representatives used where the cost per game is high
+pub fn shape_representatives(skels: &[Tree]) -> Vec<Tree> {
+    let mut best: std::collections::BTreeMap<String, (usize, usize, usize, usize)> = std::collections::BTreeMap::new();
+    for (ind, skel) in skels.iter().enumerate() {
+        let labels = num_labels(skel);
+        let ent = best.entry(shape_signature(skel)).or_insert((ind, labels, ind, labels));
+        if labels > ent.1 {
+            ent.0 = ind;
+            ent.1 = labels;
+        }
+        if labels < ent.3 {
+            ent.2 = ind;
+            ent.3 = labels;
+        }
+    }
+    let mut picks = std::collections::BTreeSet::new();
+    for (hi, _, lo, _) in best.values() {
+        picks.insert(*hi);
+        picks.insert(*lo);
+    }
+    picks.into_iter().map(|i| skels[i].clone()).collect()
+}
+
 /// Every raw shape tree (unique infosets, first weights, NaN payoffs) within the bounds; used by the
 /// C11 universe which assigns its own (possibly invalid) labels
 pub fn raw_shapes(bounds: &Bounds) -> Vec<Tree> {
